@@ -218,6 +218,7 @@ def run_case(ctx: Ctx, case, path):
                   "vdata": [{"n": k, "v": v} for k, v in s0["vdata"].items()],
                   "cdata": [{"n": k, "v": v} for k, v in s0["cdata"].items()]})
     expect.append(dict(s0, status="ok"))
+    last = s0                 # what the object itself read as after the last operation on it (a masked copy is not one)
     success_removals = 0
     try:
         for step, op in enumerate(case["ops"]):
@@ -229,7 +230,7 @@ def run_case(ctx: Ctx, case, path):
                 obj = ws.get_entity("obj")[0]
                 snap = snapshot(obj)
                 failures += oracle(snap, truth_v, truth_c, tag)
-                if {k: snap[k] for k in ("verts", "cells", "vdata", "cdata")} != {k: expect[-1][k] for k in ("verts", "cells", "vdata", "cdata")}:
+                if {k: snap[k] for k in ("verts", "cells", "vdata", "cdata")} != {k: last[k] for k in ("verts", "cells", "vdata", "cdata")}:
                     failures.append((f"re-open changed the object {tag}", "C07:reopen-differs"))
                 continue
             if op[0] in ("readLazy", "clearCache"):
@@ -246,7 +247,7 @@ def run_case(ctx: Ctx, case, path):
                     continue
                 snap = snapshot(obj)
                 failures += oracle(snap, truth_v, truth_c, tag)
-                if {k: snap[k] for k in ("verts", "cells", "vdata", "cdata")} != {k: expect[-1][k] for k in ("verts", "cells", "vdata", "cdata")}:
+                if {k: snap[k] for k in ("verts", "cells", "vdata", "cdata")} != {k: last[k] for k in ("verts", "cells", "vdata", "cdata")}:
                     failures.append((f"{op[0]} changed what the object reads as {tag}", f"C07:{op[0]}-differs"))
                 continue
             before = snapshot(obj)
@@ -317,6 +318,7 @@ def run_case(ctx: Ctx, case, path):
                 failures += oracle(snap, truth_v, truth_c, tag)
                 break
             expect.append(dict(snap, status=status))
+            last = snap
             failures += oracle(snap, truth_v, truth_c, tag + (" (operation raised " + status + ")" if status != "ok" else ""))
             if status != "ok" and snap != before:
                 failures.append((f"{op} raised {status} but changed the object: {before} -> {snap}", f"C07:{op[0]}:failed-op-changed-state"))
